@@ -16,3 +16,22 @@ package resources
 //@ trusted
 //@ modifies nothing
 //@ ensures exist ==> node != nil && srvId(*node) == id
+
+// UpdateShardMetadata: what is handed to the durable store is a private copy of the
+// status that already carries the new shard metadata (term, leader, ensemble), never
+// the status currently published in memory: a term becomes visible to the rest of the
+// coordinator only through a copy that was stored first.
+//
+//@ func status.UpdateShardMetadata(s, namespace, shard, shardMetadata)
+//@ property C05
+//@ requires s.current != nil && s.metadata != nil && s.Logger != nil
+//@ assert at call RetryNotify#0: fresh(clonedStatus) && clonedStatus != s.current && inmap(clonedStatus.Namespaces, namespace) && inmap(clonedStatus.Namespaces[namespace].Shards, shard) && clonedStatus.Namespaces[namespace].Shards[shard].Term == shardMetadata.Term
+//@ modifies *
+
+// the store attempt run by the retry loop
+//@ func status.UpdateShardMetadata$1
+//@ property C05
+//@ requires s != nil && s.metadata != nil
+//@ assert at call Store#0: cs == clonedStatus
+//@ ensures result == nil ==> s.current == clonedStatus
+//@ modifies s.current, s.currentVersionID
